@@ -289,6 +289,8 @@ def b_all(V, st, args, kwargs, node):
     v = args[0]
     if isinstance(v, SV) and isinstance(v.t, SeqT) and v.t.elem == BOOL:
         return SV(BOOL, z3.Not(z3.Contains(v.z, z3.Unit(z3.BoolVal(False)))))
+    if isinstance(v, SV) and isinstance(v.t, SeqT) and v.t.elem == STR:
+        return SV(BOOL, z3.Not(z3.Contains(v.z, z3.Unit(z3.StringVal('')))))
     raise Unsupported('all() of %r' % (v,))
 
 
